@@ -110,3 +110,31 @@ Proof.
   rewrite forallb_forall in *. intros o Hin. specialize (Ht o Hin).
   destruct o; cbn [target] in Ht; try reflexivity; apply Nat.eqb_eq; apply Nat.ltb_lt in Ht; lia.
 Qed.
+
+(* ---------- the 4-operation witness is minimal: every history of at most 3 operations reads
+   at most one result, hence stands alone *)
+Definition first_reader (h : list op) : nat :=
+  match filter needs_shots h with
+  | o :: _ => match target o with Some r => r | None => 0 end
+  | [] => 0
+  end.
+
+Lemma short_single_reader cfg h :
+  length h <= 3 -> hist_wf cfg 0 h = true -> single_reader (first_reader h) h = true.
+Proof.
+  intros Hlen Hwf.
+  destruct h as [|a [|b [|c [|d t]]]]; [reflexivity | | | | cbn [length] in Hlen; lia].
+  all: destruct a; try destruct b; try destruct c;
+    cbn [hist_wf op_wf single_reader forallb first_reader filter needs_shots target andb] in *;
+    repeat rewrite andb_true_iff in *; repeat rewrite Nat.ltb_lt in *; repeat rewrite Nat.eqb_eq in *;
+    try reflexivity; try lia; repeat split; try reflexivity; try lia.
+Qed.
+
+Lemma short_histories_standalone cfg h :
+  cfg_wf cfg -> length h <= 3 -> hist_wf cfg 0 h = true -> oracles_ok cfg (init cfg) h = true ->
+  standalone cfg h.
+Proof.
+  intros Hcfg Hlen Hwf Hor.
+  apply (single_reader_standalone cfg (first_reader h) Hcfg h Hwf Hor).
+  now apply (short_single_reader cfg).
+Qed.
